@@ -58,6 +58,13 @@ fn conv(s: &SeqSpec) -> PResult {
     arr_conv!(63, 2);
     arr_conv!(64, 2);
     arr_conv!(65, 3);
+    // N and W are independent parameters of the public type: arrays with spare (zero) backing words
+    arr_conv!(0, 1);
+    arr_conv!(1, 3);
+    arr_conv!(5, 2);
+    arr_conv!(32, 2);
+    arr_conv!(33, 3);
+    arr_conv!(64, 4);
     // text bases back to DNA, symbol by symbol
     for (k, x) in t.iter().enumerate() {
         match DnaC::try_from(x) {
